@@ -18,6 +18,13 @@ def lz(xs): return clist(xs, cz)
 
 def gen(rng, tier):
     n = 400 if tier == "quick" else 8000
+    # fixed invalid inputs: a negative multiplicity while the sum still equals the number of lists (the length guard
+    # passes; islice raises ValueError) - before or after the groups it steals from
+    yield dict(kind="combine_bs", all=[[5]], mults=[-1, 2])
+    yield dict(kind="combine_bs", all=[[1, 2], [3]], mults=[3, -1])
+    yield dict(kind="combine_bs", all=[[7], [8, 9]], mults=[1, -2, 3])
+    yield dict(kind="combine_mc", all=[[["0", 1]]], mults=[-1, 2])
+    yield dict(kind="combine_mc", all=[[["0", 1]], [["1", 2]]], mults=[2, -1, 1])
     for _ in range(n):
         r = rng.random()
         if r < 0.25:
@@ -33,6 +40,16 @@ def gen(rng, tier):
             mults = [rng.randint(1, 4) if rng.random() < 0.9 else 0 for _ in range(rng.randint(0, 5))]
             total = sum(mults) + (rng.choice([-1, 1, 2]) if rng.random() < 0.15 else 0)
             allb = [[rng.randint(0, 15) for _ in range(rng.randint(0, 4))] for _ in range(max(0, total))]
+            if rng.random() < 0.12 and total >= 0:
+                # invalid stream: a negative multiplicity compensated elsewhere, so that the length guard passes and
+                # only islice's own ValueError stops the call
+                neg = -rng.randint(1, 2)
+                pos = rng.randint(0, len(mults))
+                mults = mults[:pos] + [neg] + mults[pos:]
+                tgt = rng.randint(0, len(mults) - 1)
+                if tgt == pos and len(mults) > 1: tgt = (pos + 1) % len(mults)
+                if tgt == pos: mults.append(-neg)
+                else: mults[tgt] -= neg
             yield dict(kind="combine_bs", all=allb, mults=mults)
         elif r < 0.55:
             mults = [rng.randint(1, 3) if rng.random() < 0.93 else 0 for _ in range(rng.randint(0, 4))]
@@ -42,6 +59,14 @@ def gen(rng, tier):
             for _ in range(max(0, total)):
                 keys = rng.sample([format(i, f"0{w}b") for i in range(2 ** w)], rng.randint(1, min(4, 2 ** w)))
                 allc.append([[k, rng.randint(1, 50)] for k in keys])
+            if rng.random() < 0.12 and total >= 0:
+                neg = -rng.randint(1, 2)
+                pos = rng.randint(0, len(mults))
+                mults = mults[:pos] + [neg] + mults[pos:]
+                tgt = rng.randint(0, len(mults) - 1)
+                if tgt == pos and len(mults) > 1: tgt = (pos + 1) % len(mults)
+                if tgt == pos: mults.append(-neg)
+                else: mults[tgt] -= neg
             yield dict(kind="combine_mc", all=allc, mults=mults)
         elif r < 0.7:
             k = rng.randint(0, 9)
@@ -124,10 +149,11 @@ def run_case(inp):
                 ok, msg = False, f"combined {out} from {allb} with {mults}"
             coq = "(Some " + clist(out, lz) + ")"
         else:
-            if len(allb) == sum(mults):
-                ok, msg = False, f"raised {out} although lengths match"
+            if len(allb) == sum(mults) and all(mu >= 0 for mu in mults):
+                ok, msg = False, f"raised {out} although lengths match and no multiplicity is negative"
             coq = "None"
-        return dict(chk=f"combine_bs_eqb {clist(allb, lz)} {lz(mults)} {coq}", oracle_ok=ok, oracle_msg=msg, kind=kind,
+        return dict(chk=f"combine_bs_eqb {clist(allb, lz)} {lz(mults)} {coq}", oracle_ok=ok, oracle_msg=msg,
+                    kind=kind + ("-negative" if any(mu < 0 for mu in mults) else ""),
                     nontrivial=len(mults) >= 2)
     if kind == "combine_mc":
         allc = [dict((k, v) for k, v in d) for d in inp["all"]]
@@ -148,7 +174,8 @@ def run_case(inp):
             if len(allc) == sum(mults) and all(mu > 0 for mu in mults):
                 ok, msg = False, f"raised {out} on matching input"
             coq = "None"
-        return dict(chk=f"combine_mc_eqb {clist(allc, cc)} {lz(mults)} {coq}", oracle_ok=ok, oracle_msg=msg, kind=kind,
+        return dict(chk=f"combine_mc_eqb {clist(allc, cc)} {lz(mults)} {coq}", oracle_ok=ok, oracle_msg=msg,
+                    kind=kind + ("-negative" if any(mu < 0 for mu in mults) else ""),
                     nontrivial=len(mults) >= 2)
     if kind == "batches":
         cs, ns, k = inp["cs"], inp["ns"], inp["k"]
